@@ -3,11 +3,13 @@
 package c04
 
 import (
+	"encoding/json"
 	"fmt"
 	"os"
 	"path/filepath"
 	"strings"
 	"testing"
+	"time"
 
 	"github.com/dcaiafa/lox/verifharness/lib/cfggen"
 	"github.com/dcaiafa/lox/verifharness/lib/cfgm"
@@ -45,9 +47,9 @@ func evaluate(run *ev.Run, c *Case, realPath bool) outcome {
 		return outcome{}
 	}
 	p := cfgm.Desugar(c.G)
-	ref := cfgm.BuildRef(p, 3000)
+	ref := cfgm.BuildRef(p, lr1Cap)
 	if ref.TooBig {
-		run.Inconclusive("canonical LR(1) above 3000 states")
+		run.Inconclusive(fmt.Sprintf("canonical LR(1) above %d states", lr1Cap))
 		return outcome{}
 	}
 	run.Eval(1)
@@ -135,6 +137,10 @@ func describeConflict(ref *cfgm.RefLALR) string {
 	return "?"
 }
 
+// lr1Cap bounds the canonical LR(1) collection of the reference (lower inside native fuzz workers,
+// whose watchdog kills a call that takes more than 10 s).
+var lr1Cap = 3000
+
 const knownRight = "C05-right-assoc"
 
 func TestC04(t *testing.T) {
@@ -178,8 +184,50 @@ func TestC04(t *testing.T) {
 		return
 	}
 	n := run.N(6000, 150000)
-	f := run.Check("grammars", n, 8, func(rt *rapid.T, fail ev.FailFunc) {
+	f := run.Check("grammars", n, 8, propGrammars(run, false))
+	if f != nil {
+		c, _ := f.Case.(*Case)
+		if c == nil {
+			run.HarnessError("rapid failure without a case: %s\n%s", f.Msg, f.Log)
+		}
+		run.Violation(f.Msg, map[string]any{"G": c.G, "lox": c.Text})
+		return
+	}
+	if run.Thorough() {
+		if cr := run.NativeFuzz("FuzzGrammars", 150*time.Second, 12); cr != nil {
+			var c Case
+			if err := json.Unmarshal(cr.Case, &c); err != nil {
+				run.HarnessError("native fuzzing: case does not decode: %v", err)
+			}
+			o := evaluate(run, &c, true)
+			if o.known > 0 && run.Known(knownRight) {
+				o.known = 0
+			}
+			if o.fail != "" || o.known > 0 {
+				report(&c, o)
+				return
+			}
+			run.Inconclusive("native fuzzing: falsified case did not reproduce through the plain evaluator")
+		}
+	}
+	if fr := run.ClassCount("frontend-rejected"); fr*50 > run.Evals() {
+		run.HarnessError("generator produces grammars the front end rejects (%d of %d)", fr, run.Evals())
+	}
+	run.RequireClass("verdict:conflict", int64(n/20))
+	run.RequireClass("verdict:accepted", int64(n/20))
+	run.RequireClass("conflict:reduce/reduce", 5)
+	run.RequireClass("conflict:LALR-only(LR(1) is conflict-free)", 10)
+	run.RequireClass("accepted:precedence-resolved", 20)
+}
+
+// propGrammars is the generated-case property (shared by the rapid run and the
+// native fuzz target).
+func propGrammars(run *ev.Run, fuzz bool) func(rt *rapid.T, fail ev.FailFunc) {
+	return func(rt *rapid.T, fail ev.FailFunc) {
 		o := cfggen.Opts{Shapes: true, Styles: true, HugePct: 1}
+		if fuzz {
+			o.HugePct = 0
+		}
 		roll := rapid.IntRange(0, 99).Draw(rt, "mix")
 		o.Sugar = roll < 25
 		o.Prec = roll >= 70
@@ -189,7 +237,7 @@ func TestC04(t *testing.T) {
 			g = cfggen.GenExpr(rt).G
 		}
 		c := &Case{G: g}
-		res := evaluate(run, c, rapid.IntRange(0, 19).Draw(rt, "real") == 0)
+		res := evaluate(run, c, rapid.IntRange(0, 19).Draw(rt, "real") == 0 && !fuzz)
 		if res.known > 0 && run.Known(knownRight) {
 			run.KnownHit(knownRight, "equal-level @right entries resolved as reduce (reads as @left)")
 			res.known = 0
@@ -200,21 +248,13 @@ func TestC04(t *testing.T) {
 		if res.fail != "" {
 			fail(c, "%s", res.fail)
 		}
-	})
-	if f != nil {
-		c, _ := f.Case.(*Case)
-		if c == nil {
-			run.HarnessError("rapid failure without a case: %s\n%s", f.Msg, f.Log)
-		}
-		run.Violation(f.Msg, map[string]any{"G": c.G, "lox": c.Text})
-		return
 	}
-	if fr := run.ClassCount("frontend-rejected"); fr*50 > run.Evals() {
-		run.HarnessError("generator produces grammars the front end rejects (%d of %d)", fr, run.Evals())
-	}
-	run.RequireClass("verdict:conflict", int64(n/20))
-	run.RequireClass("verdict:accepted", int64(n/20))
-	run.RequireClass("conflict:reduce/reduce", 5)
-	run.RequireClass("conflict:LALR-only(LR(1) is conflict-free)", 10)
-	run.RequireClass("accepted:precedence-resolved", 20)
+}
+
+// FuzzGrammars: coverage-guided search over the same structured generator
+// (thorough tier; by hand: go test -fuzz FuzzGrammars ./props/c04).
+func FuzzGrammars(f *testing.F) {
+	run := ev.Start("C04")
+	lr1Cap = 400
+	ev.FuzzTarget(f, propGrammars(run, true))
 }
